@@ -1,1 +1,94 @@
-fn main() {}
+//! C20 — retained content is returned intact or not at all.
+//!
+//! Three reference-model monitors share one report:
+//!  * `cas`    — random op histories on echo-cas `MemoryTier` / `DiskTier` against a
+//!               `BTreeMap<hash, bytes>`, then corruption/truncation/deletion of every
+//!               stored file of the disk tier;
+//!  * `retain` — `RetainedBlobIndex` (echo-cas) and `RetainedReadingCache` (warp-core)
+//!               against a coordinate → bytes map;
+//!  * `wsc`    — generated causal-history record sets through the three WSC export
+//!               profiles and back, with every referenced blob withheld / corrupted.
+
+mod cas;
+mod retain;
+mod wsc;
+
+use verif_core::{Args, Budget, Report};
+
+fn main() {
+    let args = Args::parse();
+    let code = match args.prop.as_str() {
+        "C20" => run(&args),
+        other => {
+            println!("HARNESS-ERROR unknown property {other}");
+            2
+        }
+    };
+    std::process::exit(code);
+}
+
+fn run(args: &Args) -> i32 {
+    let mut rep = Report::new(
+        args,
+        "fault_enumeration",
+        "three generated workloads. (cas) op histories of 30-160 operations (put, put_verified with matching / mismatching bytes incl. the hash of another stored blob, \
+         get, has, pin, unpin, list, reopen) over a pool of 3-14 blobs of 0 B..64 KiB on MemoryTier and DiskTier, every result compared with a BTreeMap<hash,bytes> + pin-set model; \
+         afterwards EVERY file in the DiskTier tree is bit-flipped (first/middle/last byte), truncated (0, len/2, len-1), extended, zeroed, swapped with another blob's bytes, deleted and \
+         replaced by a directory, every shard directory is removed / replaced by a file, temp and junk files are planted; get must return the exact model bytes (whose BLAKE3 is the key), \
+         Ok(None) or a typed error. (retain) op histories on RetainedBlobIndex and RetainedReadingCache over coordinates that differ in exactly one field. \
+         (wsc) generated WAL histories (1-6 submission+tick transactions, 0-3 retained materials) exported through the self-contained, CAS-addressed and ref-only profiles, \
+         re-imported and compared record by record; each referenced blob individually withheld and corrupted; envelopes byte-mutated. \
+         distinct_nontrivial = distinct (workload, history) cases by canonical bytes that reached the comparison phase with at least one stored blob / coordinate / record, \
+         plus one per distinct (file, fault) pair applied to a disk tier.",
+    );
+    if let Some(path) = &args.replay {
+        return replay(args, path, rep);
+    }
+    let budget = Budget::for_tier(args.tier, 75.0, 900.0);
+    cas::run(args, &mut rep, &budget.slice(0.45));
+    retain::run(args, &mut rep, &budget.slice(0.15));
+    wsc::run(args, &mut rep, &budget.slice(0.40));
+    rep.finish(100)
+}
+
+fn replay(args: &Args, path: &std::path::Path, mut rep: Report) -> i32 {
+    let Ok(text) = std::fs::read_to_string(path) else {
+        println!("HARNESS-ERROR cannot read replay file {}", path.display());
+        return 2;
+    };
+    let Ok(v) = serde_json::from_str::<verif_core::Value>(&text) else {
+        println!("HARNESS-ERROR replay file is not JSON");
+        return 2;
+    };
+    let r = &v["replay"];
+    let seed = r["seed"].as_u64().unwrap_or(args.seed);
+    let case = r["case"].as_u64().unwrap_or(0);
+    let workload = r["workload"].as_str().unwrap_or("");
+    println!("REPLAY workload={workload} seed={seed} case={case}");
+    match workload {
+        "cas-memory" => cas::run_case(&mut rep, seed, case, cas::TierKind::Memory, true),
+        "cas-disk" => cas::run_case(&mut rep, seed, case, cas::TierKind::Disk, true),
+        "retain-index" => retain::run_index_case(&mut rep, seed, case, true),
+        "retain-reading-cache" => retain::run_cache_case(&mut rep, seed, case, true),
+        "wsc" => wsc::run_case(&mut rep, seed, case, true),
+        other => {
+            println!("HARNESS-ERROR unknown workload {other:?} in replay file");
+            return 2;
+        }
+    }
+    if rep.violations() > 0 {
+        1
+    } else {
+        println!("REPLAY: finished (divergences, if any, are printed above as REPLAY-DIVERGENCE / KNOWN-FINDING lines)");
+        0
+    }
+}
+
+/// Report a refuting observation; in replay mode also print it verbatim (known
+/// findings are otherwise only summarised by `Report::violation`).
+pub fn flag(rep: &mut Report, verbose: bool, sig: &str, what: &str, replay: verif_core::Value) {
+    if verbose {
+        println!("REPLAY-DIVERGENCE [{sig}] {what}");
+    }
+    rep.violation(sig, what, replay);
+}
